@@ -240,7 +240,7 @@ Proof.
   assert (Hall : IL ts 0 (N.of_nat (length ts)) (obs_l (map tok_tree ts))).
   { rewrite <- (slice_raw_all ts) at 3. eapply IL_slice; [reflexivity | lia | lia]. }
   destruct (N.eq_dec (start_idx ts) (end_idx ts)) as [Heq|Hsi].
-  - unfold root_parse in Hrp. rewrite Heq, N.eqb_refl in Hrp.
+  - unfold root_parse, root_parse_gen in Hrp. rewrite Heq, N.eqb_refl in Hrp.
     rewrite node_of_some in Hrp by (now apply map_nonempty). injection Hrp as <-. exact Hall.
   - destruct (root_parse_shape ts m Hne Hwf Hsi) as (matched & Happ & Hleaves & Hno & Hleft & Hfull).
     destruct (idx_bounds ts) as [Hse Hen].
